@@ -7,9 +7,9 @@
    (Z, A, S) triples whose expected identifiers are printed and compared with what the real encoders return (NuclideIds_mc).
 
    Transcribed code (armi/nucDirectory/nuclideBases.py):
-     NameOf      NuclideBase._createName      symbol ++ A ++ ["", "M", "M2", "M3"][S]
+     RawNameOf   NuclideBase._createName      symbol ++ A ++ ["", "M", "M2", "M3"][S]      (NameOf: after the special cases)
      LabelOf     NuclideBase._createLabel     symbol ++ ((A mod 10^(4-len(symbol))) div 10) ++ "0..9A..JK..TU..d"[(A mod 10) + 10 S]
-     DbNameOf    INuclide.getDatabaseName     "n" ++ name.capitalize()
+     RawDbNameOf INuclide.getDatabaseName     "n" ++ name.capitalize()                     (DbNameOf: after the special cases)
      McnpOf      NuclideBase.getMcnpId        Z ++ 3-digit A', A' = A + 300 + 100 S for isomers; Am-242: the isomer S=1 is 95242,
                                               every other state of Am-242 is A + 300 + 100 max(S,1)  (ground state 95642)
      AzsOf       NuclideBase.getAAAZZZSId     A ++ 3-digit Z ++ S
